@@ -743,7 +743,78 @@ func condClass(fn *ssa.Function, cond ssa.Value, taken bool) string {
 			return name + "!=nil"
 		}
 	}
-	// range loop continuation (ok flag of Next) or index comparison
+	// range loop continuation (ok flag of Next) or index comparison: the test sits in a loop header
+	inLoop := false
+	if in, ok := cond.(ssa.Instruction); ok && in.Block() != nil {
+		h := in.Block()
+		for _, p := range h.Preds {
+			if h.Dominates(p) {
+				inLoop = true
+			}
+		}
+		if _, isNext := cond.(*ssa.Extract); isNext {
+			inLoop = true
+		}
+	}
+	if bo, ok := cond.(*ssa.BinOp); ok && !inLoop {
+		// any other test is named by what it compares, so that the two siblings must branch on the same thing
+		var desc func(v ssa.Value, d int) string
+		desc = func(v ssa.Value, d int) string {
+			if d > 4 {
+				return "?"
+			}
+			switch x := v.(type) {
+			case *ssa.Const:
+				if x.Value == nil {
+					return "nil"
+				}
+				return x.Value.ExactString()
+			case *ssa.UnOp:
+				if x.Op == token.MUL {
+					if f := recvFieldOf(fn, x.X); f != "" {
+						return "." + f
+					}
+				}
+				return "?"
+			case *ssa.Convert:
+				return desc(x.X, d+1)
+			case *ssa.ChangeType:
+				return desc(x.X, d+1)
+			case *ssa.Call:
+				if b, isB := x.Common().Value.(*ssa.Builtin); isB && len(x.Common().Args) == 1 {
+					return b.Name() + "(" + desc(x.Common().Args[0], d+1) + ")"
+				}
+				if cal := x.Common().StaticCallee(); cal != nil {
+					return "call " + cal.Name()
+				}
+				return "call"
+			case *ssa.Parameter:
+				return "param " + x.Name()
+			}
+			return "?"
+		}
+		x, y, op := desc(bo.X, 0), desc(bo.Y, 0), bo.Op
+		// s != ""  ≡  len(s) != 0  ≡  len(s) > 0
+		if y == `""` {
+			x, y = "len("+x+")", "0"
+		}
+		if strings.HasPrefix(x, "len(") && y == "0" {
+			pos := (op == token.NEQ || op == token.GTR) == truth
+			if op == token.EQL || op == token.NEQ || op == token.GTR || op == token.LEQ {
+				if op == token.LEQ {
+					pos = !truth
+				}
+				if pos {
+					return x + ">0"
+				}
+				return x + "=0"
+			}
+		}
+		if !truth {
+			return "!(" + x + " " + op.String() + " " + y + ")"
+		}
+		return x + " " + op.String() + " " + y
+	}
 	if truth {
 		return "iter"
 	}
